@@ -116,5 +116,17 @@ def run(out, tier, seed):
             if quick and (i + gi) % 3:
                 continue
             jobs.append(make_job(p, g, i + gi, "plain", ends=[ENDS[(i + gi + k) % len(ENDS)] for k in range(4)] if quick else None))
+    # every directly nested pair of modifiers (p?)+, (p*)?, ^(p+)* ... through every route, on every named family
+    mods = ["star", "plus", "opt"]
+    for m1 in mods:
+        for m2 in mods:
+            for pr in ("p1", "p2"):
+                for inv in (False, True):
+                    base = {"op": "iri", "iri": pr}
+                    inner = {"op": m1, "arg": {"op": "inv", "arg": base} if inv else base}
+                    pth = {"op": m2, "arg": inner}
+                    for gi, (name, g) in enumerate(NAMED.items()):
+                        jobs.append(make_job(pth, g, gi, "plain", vias=["sparql", "triples"] if not inv else ["sparql"],
+                                             ends=ENDS[:8] + [(["n4"], []), ([], ["n4"])]))
     out.exhaustive = not quick
     out.conform(__name__, TRACE, jobs, nontrivial=nontrivial, chunk=300)
